@@ -3,6 +3,7 @@
 #endif /* HAVE_CONFIG_H */
 
 #include "std.h"
+#include <float.h>
 #include "rc.h"
 #include "comm.h"
 #include "qsort.h"
@@ -22,6 +23,9 @@
 
 #include "efuns_prototype.h"
 #include "efuns_vector.h"
+
+/* "%lf" of a double prints up to 1 + DBL_MAX_10_EXP + 1 digits before the point */
+#define REAL_BUFF_SIZE (DBL_MAX_10_EXP + 16)
 
 int num_varargs;
 int caller_type;
@@ -1191,9 +1195,9 @@ void eval_instruction (const char *p) {
                       break;
                     case T_STRING:
                       {
-                        char buff[40];
+                        char buff[REAL_BUFF_SIZE];
 
-                        sprintf (buff, "%lf", (sp + 1)->u.real);
+                        snprintf (buff, sizeof (buff), "%lf", (sp + 1)->u.real);
                         EXTEND_SVALUE_STRING (sp, buff, "f_add: 2");
                         break;
                       }
@@ -1245,9 +1249,9 @@ void eval_instruction (const char *p) {
                       }		/* end of T_NUMBER + T_STRING */
                     case T_REAL:
                       {
-                        char buff[40];
+                        char buff[REAL_BUFF_SIZE];
 
-                        sprintf (buff, "%lf", (sp - 1)->u.real);
+                        snprintf (buff, sizeof (buff), "%lf", (sp - 1)->u.real);
                         SVALUE_STRING_ADD_LEFT (buff, "f_add: 3");
                         break;
                       }		/* end of T_REAL + T_STRING */
@@ -1290,9 +1294,9 @@ void eval_instruction (const char *p) {
                 }
               else if (sp->type == T_REAL)
                 {
-                  char buff[40];
+                  char buff[REAL_BUFF_SIZE];
 
-                  sprintf (buff, "%lf", sp->u.real);
+                  snprintf (buff, sizeof (buff), "%lf", sp->u.real);
                   EXTEND_SVALUE_STRING (lval, buff, "f_add_eq: 2");
                 }
               else
